@@ -227,6 +227,14 @@ int main(int argc, char **argv)
         else if(e == "Seek")
         {
             size_t from = glog.size();
+            // what sounds before the call: keyed-on chip channels, chip-channel users (a refused seek leaves them alone)
+            {
+                OPNMIDIplay *pp = playerOf(dev);
+                std::vector<OPNMIDIplay::OpnChannel> &cc = OpnVerifAccess::chipChannels(pp);
+                long long keyed = 0, users = 0;
+                for(size_t q = 0; q < cc.size(); ++q) { if(q < 600 && tap->keyed[q]) ++keyed; users += (long long)cc[q].users.size(); }
+                w.kv("prek", keyed); w.kv("preu", users);
+            }
             opn2_positionSeek(dev, (double)c.get("us") / 1e6);
             drainTap();
             w.kv("tell", tellUs()); w.kv("atend", opn2_atEnd(dev));
